@@ -42,6 +42,16 @@ from simworld.core import HarnessError  # noqa: E402
 from checks import dispatch, common  # noqa: E402
 
 LEVELS = {"C19": "exploration"}
+# fault kinds / probes a run of the property is expected to reach; a zero is reported as a coverage gap
+EXPECT = {
+    "C01": ["par_task.raise"],
+    "C03": ["mcs_job.timeout", "fmcs.cancel"],
+    "C10": ["mcs_job.timeout", "fmcs.cancel"],
+    "C11": ["mcs_job.timeout", "mcs_job.hang", "frag_job.timeout", "frag_job.exception", "fmcs.cancel", "fmcs.raise", "fmces.empty", "zombie_step",
+            "probe:zombie_wrote_shared_record", "probe:all_conditions_failed", "probe:affected_row_declined", "probe:affected_row_still_solved"],
+    "C12": ["crash_write", "cache_hit", "enospc"],
+    "C06": ["probe:par_out_of_order_completion"],
+}
 COMPONENTS = {
     "real": [
         "synrbl (Balancer, all pipeline stages, CacheManager, Dataset/DataLoader, CLI impute, RuleImputeManager)",
@@ -287,6 +297,13 @@ def main():
             json.dump({str(k): v for k, v in sorted(per_plan.items())}, f)
     if not args.no_evidence:
         agg = common.merge_summaries(sums)
+        gaps = []
+        for k in EXPECT.get(prop, []):
+            got = agg["probes"].get(k[6:], 0) if k.startswith("probe:") else agg["fired"].get(k, 0)
+            if not got:
+                gaps.append(k)
+        if gaps:
+            print("COVERAGE-GAP: property=%s never reached: %s (not a violation; the seams may no longer match the code)" % (prop, ", ".join(gaps)))
         ev = {
             "property_id": prop,
             "tier": tier,
@@ -312,6 +329,7 @@ def main():
                 "interleaving_measure": "distinct hashes of the sequence (parallel call site, task execution order) + (zombie, line, yield point)",
                 "components": COMPONENTS,
                 "known_findings_seen": sorted(known_seen),
+                "coverage_gaps": gaps,
                 "notes": notes,
                 "exhaustive": False,
             },
